@@ -161,9 +161,19 @@ pub fn by_theta_oref(th: i32) -> impl Fn(&OKey) -> Ordering {
     }
 }
 
-/// payloads: an integer, or a heap-allocated string holding the same integer
+thread_local! {
+    static LIVE: Cell<i64> = const { Cell::new(0) };
+}
+/// number of `Cnt` payload instances alive (constructed or cloned, and not yet dropped)
+pub fn live() -> i64 {
+    LIVE.with(|l| l.get())
+}
+
+/// payloads: an integer, or a heap-allocated string holding the same integer, or an instance-counting
+/// integer (every construction / clone is +1, every drop -1: a value dropped twice or never is seen)
 pub trait Payload: Clone + Default {
     const NAME: &'static str;
+    const COUNTED: bool = false;
     fn from_i(i: i32) -> Self;
     fn to_i(&self) -> i32;
 }
@@ -192,6 +202,42 @@ impl Payload for String {
                 }
             }
         }
+    }
+}
+
+#[derive(Debug)]
+pub struct Cnt(pub i32);
+impl Cnt {
+    fn born() {
+        LIVE.with(|l| l.set(l.get() + 1));
+    }
+}
+impl Clone for Cnt {
+    fn clone(&self) -> Self {
+        Cnt::born();
+        Cnt(self.0)
+    }
+}
+impl Default for Cnt {
+    fn default() -> Self {
+        Cnt::born();
+        Cnt(0)
+    }
+}
+impl Drop for Cnt {
+    fn drop(&mut self) {
+        LIVE.with(|l| l.set(l.get() - 1));
+    }
+}
+impl Payload for Cnt {
+    const NAME: &'static str = "Cnt";
+    const COUNTED: bool = true;
+    fn from_i(i: i32) -> Self {
+        Cnt::born();
+        Cnt(i)
+    }
+    fn to_i(&self) -> i32 {
+        self.0
     }
 }
 
